@@ -2,6 +2,7 @@
 import random
 
 import gen
+import engine
 import pegcheck
 
 
@@ -15,7 +16,12 @@ def run(chk):
                         'LawSepShape are model-checked on every member']
     cases = pegcheck.collect(chk, 'MC_C03', 'MC_C03_' + chk.tier, timeout_s=3000)
     chk.notes['tlc_enumerated_grammars'] = len(cases)
-    pegcheck.replay(chk, cases, sample_every=20011)
+    # the separated lists again with their options passed by position (Sep(e, s, False, True) ...)
+    extra = engine.with_cfg_variant(cases, 'sep_positional')
+    for k, c in enumerate(extra):
+        c['id'] = len(cases) + k
+    chk.notes['positional_sep_option_spellings'] = len(extra)
+    pegcheck.replay(chk, cases + extra, sample_every=20011)
     # seeded random grammars made mostly of repetitions and separated lists, nested in each other
     rng = random.Random(chk.seed * 7919 + 3)
     n = 1000 if chk.tier == 'quick' else 12000
